@@ -260,10 +260,10 @@ func bindResults(ctx *EvalCtx, fc *FuncContract, sig *types.Signature, res []Val
 
 // modTarget is one location named in a modifies clause.
 type modTarget struct {
-	loc       *Loc
-	wholeArr  bool
-	arrRef    Term
-	elem      types.Type
+	loc      *Loc
+	wholeArr bool
+	arrRef   Term
+	elem     types.Type
 }
 
 func (ctx *EvalCtx) evalModTargets(mods []ast.Expr) (out []modTarget, err error) {
@@ -376,6 +376,7 @@ func (f *frame) callByContract(t *ssa.Call, callee *ssa.Function, fc *FuncContra
 			after = x.havocTarget(after, mt)
 		}
 		nx := x.S.Declare("next", SInt)
+		x.S.Assert(IntLt(nx, IntConst(1<<39)))
 		x.S.Assert(IntLe(before.next, nx))
 		after = x.H.WithNext(after, nx)
 	}
@@ -640,6 +641,15 @@ func (f *frame) appendBuiltin(t *ssa.Call) {
 	}
 	newLen := x.S.Define("applen", BVBin("bvadd", s.T[2], n))
 	fits := x.S.Define("fits", BVCmp("bvule", newLen, s.T[3]))
+	// when the solver can show at once that the append always fits (or never does), keep one case only
+	alwaysFits, neverFits := false, false
+	if !x.discovery {
+		if f.valid(fits) {
+			alwaysFits = true
+		} else if f.valid(Not(fits)) {
+			neverFits = true
+		}
+	}
 	fresh := f.freshRef()
 	h := f.cur.heap
 	newCap := x.S.Declare("appcap", SBV(64))
@@ -676,10 +686,38 @@ func (f *frame) appendBuiltin(t *ssa.Call) {
 			return Ite(BVCmp("bvult", j, s.T[2]), Select(inner, BVBin("bvadd", s.T[1], j)),
 				Ite(BVCmp("bvult", j, newLen), srcAt(BVBin("bvsub", j, s.T[2])), zeroOfSort(sorts[i])))
 		}, x)
-		h = x.H.SetAt(h, k, Ite(fits, s.T[0], fresh), Ite(fits, Store(a, s.T[0], inPlace), Store(a, fresh, moved)))
+		switch {
+		case alwaysFits:
+			h = x.H.SetAt(h, k, s.T[0], Store(a, s.T[0], inPlace))
+		case neverFits:
+			h = x.H.SetAt(h, k, fresh, Store(a, fresh, moved))
+		default:
+			h = x.H.SetAt(h, k, Ite(fits, s.T[0], fresh), Ite(fits, Store(a, s.T[0], inPlace), Store(a, fresh, moved)))
+		}
 	}
 	f.cur.heap = h
-	f.set(t, Val{T: []Term{Ite(fits, s.T[0], fresh), Ite(fits, s.T[1], BVInt(0, 64)), newLen, Ite(fits, s.T[3], newCap)}, Typ: t.Type()})
+	switch {
+	case alwaysFits:
+		f.set(t, Val{T: []Term{s.T[0], s.T[1], newLen, s.T[3]}, Typ: t.Type(), FixedN: s.FixedN})
+	case neverFits:
+		f.set(t, Val{T: []Term{fresh, BVInt(0, 64), newLen, newCap}, Typ: t.Type()})
+	default:
+		f.set(t, Val{T: []Term{Ite(fits, s.T[0], fresh), Ite(fits, s.T[1], BVInt(0, 64)), newLen, Ite(fits, s.T[3], newCap)}, Typ: t.Type()})
+	}
 }
 
 var _ = token.NoPos
+
+// valid asks the solvers (briefly) whether g holds on every path reaching the current point.
+func (f *frame) valid(g Term) bool {
+	if g.S == "true" {
+		return true
+	}
+	if g.S == "false" {
+		return false
+	}
+	x := f.x
+	ob := &Obligation{PC: f.cur.pc, Goal: g, script: x.S, mark: x.S.Mark(), Expect: "unsat"}
+	r := Solve(ob.Query(), 3, false)
+	return r.Status == "unsat"
+}
